@@ -409,7 +409,13 @@ class Schema(dict, metaclass=LogicalMeta):
             raise exc.DeleteError(
                 f"{self.__name__}: Attempt to popitem in immutable schema"
             )
-        return super().popitem()
+        if not self:
+            raise KeyError("popitem(): schema is empty")
+        key = next(reversed(self))
+        value = dict.__getitem__(self, key)
+        # go through pop() so that required / immutable fields are protected
+        self.pop(key)
+        return key, value
 
     def pop(self, key: str, default=unprovided):
         if self.__options__.immutable:
